@@ -262,6 +262,11 @@ ENGINE_WITNESSES = [
         {"d": "M65,60 L0,0 L25,90 L80,40 Z", "fill_rule": "evenodd", "clip_rule": "evenodd"},
         {"d": "M100,0 L60,90 C50,55 60,95 50,35 L50,15 L20,85 Z M65,85 C10,50 30,20 10,55 L80,35 C70,35 5,70 90,50 L100,25 L85,50 Z",
          "fill_rule": "evenodd", "clip_rule": "evenodd"}]},
+    # skia's fix_winding (simplify of one evenodd operand): contours that are right under evenodd, wrong under nonzero
+    {"kind": "remove_overlaps", "explicit": None, "shapes": [
+        {"d": "M5,3 L9,4 L1,5 L12,4 L3,10 Z M5,5 L3,3 L1,1 L4,3 L9,4 Z", "fill_rule": "evenodd", "clip_rule": "evenodd"}]},
+    {"kind": "remove_overlaps", "explicit": None, "shapes": [
+        {"d": "M12,7 L10,4 L3,10 L4,8 L5,7 M12,10 L4,10 L5,5 L2,10 L0,6 L3,7 Z", "fill_rule": "evenodd", "clip_rule": "evenodd"}]},
 ]
 
 
@@ -309,13 +314,13 @@ def search(ctx, disagreements):
 
 def classify(v, findings):
     for e in findings:
-        if e.get("status") == "finding" and v.get("kind") == "set-law" and v.get("input") == e.get("witness"):
+        if e.get("status") == "finding" and v.get("kind") == "set-law" and (v.get("input") == e.get("witness") or v.get("input") in e.get("witnesses", [])):
             return e["id"]
     return None
 
 
 def replay_finding(ctx, e):
-    return witness_fails(e["witness"])
+    return any(witness_fails(w) for w in ([e["witness"]] if "witness" in e else []) + e.get("witnesses", []))
 
 
 def replay(ctx, payload):
